@@ -1,8 +1,8 @@
 from propbase import Comp, Prop, reg
 from oracledefs import crash
 
-CRASH = Comp('crash', n_quick=48, n_thorough=1500, oracle=crash.crash_oracle, nontrivial=crash.crash_nontrivial, stats=crash.crash_stats,
-             chunk_min=3, timeout=1200, header_lines=1)
+CRASH = Comp('crash', n_quick=48, n_thorough=1000, oracle=crash.crash_oracle, nontrivial=crash.crash_nontrivial, stats=crash.crash_stats,
+             chunk_min=3, timeout=1800, header_lines=1)
 _RULE = ('component crash: workloads of 3-12 operations (put/delete/transaction commit/flush/clean reopen; sync modes none/batch/immediate; '
          'memtable sizes that trigger background flushes and log rotation; every 4th workload writes > 64 KB so that the log buffer '
          'overflows and cuts a record) are first run in a child process with the hook trace on (the ordered list of instrumentation '
